@@ -25,6 +25,10 @@
    does every later history of operations (connected_client_history_on_both_connections; and
    every_typed_history_keeps_the_connected_client_in_sync, where the condition on the order of messages
    is itself proved of every operation: System/Orderly.v, every_operation_is_orderly).
+   Driver operations AND client writes, in any order (System/Mixed.v): the connection invariant - one client
+   with the library's policies, one driver, nothing in flight, mirror in sync - is kept by every driver-side
+   operation and by every write the client submits, hence by every history of both, from the moment the client
+   has connected (connect_then_any_history).
    Several drivers at once (System/Interleave.v): a client's view of one device depends on the messages
    about that device alone, in their order (a_device_view_is_its_own_stream), so however the streams of
    several drivers are interleaved on the way to the client it ends in sync with every one of them
@@ -39,7 +43,7 @@
    payload (known finding K2). *)
 From Coq Require Import List NArith Bool String.
 Import ListNotations.
-From Indi Require Import Base.Sx Msg.Equality Driver.Model Driver.Props Client.Model Client.Props Client.Update Client.Norm System.Model System.Converge System.Ops System.Deliver System.Handshake System.Reorder System.Orderly System.Interleave.
+From Indi Require Import Base.Sx Msg.Equality Driver.Model Driver.Props Client.Model Client.Props Client.Update Client.Norm System.Model System.Converge System.Ops System.Deliver System.Handshake System.Reorder System.Orderly System.Interleave System.WriteE2E System.Mixed.
 
 Theorem a_definition_brings_the_entry_in_sync mi d g v :
   vec_on g v = true ->
@@ -186,7 +190,7 @@ Theorem the_handshake_connects_and_syncs s c e d :
     sy_cls (sstep s (SHandshake 0)) = [c'] /\
     one_client (sstep s (SHandshake 0)) c' (d_name d) /\ cl_in_ctl c' = [] /\ cl_in_blob c' = [] /\
     net_synced (cl_mirror c') d /\ find_dev (sstep s (SHandshake 0)) e = Some d /\
-    cl_ctl c' = cl_ctl c /\ cl_blob c' = cl_blob c.
+    cl_ctl c' = cl_ctl c /\ cl_blob c' = cl_blob c /\ one_device (sstep s (SHandshake 0)) e d.
 Proof. exact (handshake_connects_and_syncs s c e d). Qed.
 Print Assumptions the_handshake_connects_and_syncs.
 
@@ -289,3 +293,35 @@ Theorem several_drivers_at_once (ds : list (dev * list dop)) (ms : list msg) :
   forall d ops, In (d, ops) ds -> synced (feed [] ms) (fst (run d ops)).
 Proof. exact (System.Interleave.several_drivers_at_once ds ms). Qed.
 Print Assumptions several_drivers_at_once.
+
+(* ---------- driver operations and client writes, in any order ---------- *)
+(* connected s c e d: one client c with the library's policies, one driver d at endpoint e, nothing in flight,
+   c's mirror in sync with d.  It is kept by every driver-side operation ... *)
+Theorem a_driver_operation_keeps_the_connection s c e d o :
+  connected s c e d -> op_typed d o -> exists c', connected (sstep s (SDrv e o)) c' e (fst (step d o)).
+Proof. exact (driver_step_keeps_connected s c e d o). Qed.
+Print Assumptions a_driver_operation_keeps_the_connection.
+
+(* ... and by every write the client submits (whatever the driver then publishes, BLOB updates included) *)
+Theorem a_client_write_keeps_the_connection s c e d vn a :
+  connected s c e d ->
+  (forall m, submit_msg (cl_mirror c) (d_name d) vn a = Some m -> client_msg (d_name d) (wire m)) ->
+  exists c' d', connected (sstep s (SWrite 0 (d_name d) vn a)) c' e d' /\
+    match submit_msg (cl_mirror c) (d_name d) vn a with
+    | Some m => d' = fst (from_client d (wire m))
+    | None => d' = d
+    end.
+Proof. exact (client_write_keeps_connected s c e d vn a). Qed.
+Print Assumptions a_client_write_keeps_the_connection.
+
+(* From the moment a client connects to a server with one driver: the handshake, then ANY history of driver-side
+   operations and client writes (admissible: driver-side values are of the property's kind, the client writes
+   only properties that can be written) - at the end the connection invariant holds: in sync, nothing in flight. *)
+Theorem connect_then_any_history_stays_in_sync s c e d evs :
+  fresh s c e d -> dev_ok d -> (exists g v, In (g, v) (all_vecs d) /\ vec_on g v = true) ->
+  admissible e (sstep s (SHandshake 0)) evs ->
+  exists c' d',
+    connected (fold_left (fun s ev => sstep s (sop_of e (d_name d) ev)) evs (sstep s (SHandshake 0))) c' e d' /\
+    d_name d' = d_name d.
+Proof. exact (connect_then_any_history s c e d evs). Qed.
+Print Assumptions connect_then_any_history_stays_in_sync.
